@@ -217,6 +217,8 @@ pub async fn run_path(path: &Value, scratch: &Path, out: &mut Summary, backend: 
         } else {
             (Some(args[1].as_u64().unwrap_or(1)), ints(&args[2]), args[3].as_u64().unwrap_or(1))
         };
+        // the patch of a rewinding request may carry the events the rewind discards
+        let carry = act != "Merge" && args.get(4).and_then(|v| v.as_bool()).unwrap_or(false);
         let before: BTreeMap<String, Vec<EventRecord>> = {
             let mut m = BTreeMap::new();
             for ty in TYPES {
@@ -226,6 +228,9 @@ pub async fn run_path(path: &Value, scratch: &Path, out: &mut Summary, backend: 
         };
         let proof = w.proof_of(&t, &view).await?;
         let mut patch = Vec::new();
+        if let (true, Some(c)) = (carry, c) {
+            patch.extend(w.appended[&t].iter().skip(c as usize).cloned());
+        }
         for _ in 0..k {
             patch.push(w.fresh(&t).await?);
         }
@@ -252,7 +257,7 @@ pub async fn run_path(path: &Value, scratch: &Path, out: &mut Summary, backend: 
             Err(_) => "refused",
         };
         let want = step["res"].as_str().unwrap_or("");
-        let key = format!("{act}|{t}|view{}{}|{want}", view.len(), if view.contains(&99) { "+fork" } else { "" });
+        let key = format!("{act}|{t}|view{}{}|{}|{want}", view.len(), if view.contains(&99) { "+fork" } else { "" }, if carry { "carry" } else { "fresh" });
         out.nontrivial_keys.push(key);
         let violations_before = out.violations.len();
         let fail = |out: &mut Summary, what: String| {
